@@ -251,6 +251,88 @@ def run(loader, R, tier):
                             and not ps[i]["t"].startswith("const "):
                         writers.setdefault(f["qn"], []).append(
                             (n.get("l"), show(n)[:80]))
+    # R5.1b role preservation inside the raw writers: the component written
+    # in place must derive from the *same* component of a canonical rational
+    # through a sign- and coprimality-preserving operation (power, root).  A
+    # denominator written from a numerator (or negated) has an unknown sign
+    # and must be normalised under a test of the written value's own
+    # denominator, or by canonicalize().
+    def acc_of(e):
+        while e is not None and e.get("k") in ("cast",):
+            e = e["a"][0]
+        if e is not None and e.get("k") == "call" and e.get("n") in (
+                "get_num", "get_den") and e.get("a"):
+            return e["n"][4:], show(e["a"][0])
+        return None, None
+
+    def den_sign_tests(f, v):
+        """does f test the sign of get_den(v) / call canonicalize(v)?"""
+        for n in walk(f["body"]):
+            if n.get("k") == "call" and n.get("n") == "canonicalize" \
+                    and n.get("a") and show(n["a"][0]) == v:
+                return True
+            if n.get("k") in ("if", "?:"):
+                c = n.get("c") if n.get("k") == "if" else n["a"][0]
+                t = show(c)
+                if "get_den(%s)" % v in t and ("<" in t or ">" in t
+                                              or "mp_sign" in t
+                                              or "sign" in t):
+                    return True
+        return False
+
+    nrole = 0
+    for u, f in prog.functions.items():
+        if f.get("dependent") or f.get("tk") == "pattern" \
+                or not f.get("body") or f["qn"] not in writers:
+            continue
+        if f["file"].endswith(("mp_wrapper.h", "mp_class.h")):
+            continue
+        for n in walk(f["body"]):
+            tgt = src = None
+            how = None
+            if n.get("k") == "call" and n.get("n") in ("mp_pow_ui", "mp_root",
+                                                       "mp_abs") \
+                    and len(n.get("a", ())) >= 2:
+                tgt = acc_of(n["a"][0])
+                src = acc_of(n["a"][1])
+                how = n["n"]
+            elif n.get("k") == "op" and n.get("op") == "=" and n.get("a"):
+                tgt = acc_of(n["a"][0])
+                rhs = n["a"][1]
+                while rhs.get("k") == "cast":
+                    rhs = rhs["a"][0]
+                src = acc_of(rhs)
+                how = "="
+                if rhs.get("k") in ("un", "op") and rhs.get("op") == "-" \
+                        and len(rhs.get("a", ())) == 1:
+                    how = "negate"
+                    src = acc_of(rhs["a"][0])
+            if not tgt or tgt[0] is None:
+                continue
+            nrole += 1
+            key = "%s@%s" % (short(f["qn"]), n.get("l"))
+            R.instance("R5.1", "role:" + key, sample={
+                "site": show(n)[:80], "target": tgt[0],
+                "source": src[0] if src else None, "op": how})
+            bad = None
+            if tgt[0] == "den":
+                if how == "negate":
+                    bad = "the denominator is negated"
+                elif src and src[0] == "num":
+                    bad = "the denominator is computed from a numerator " \
+                          "(sign unknown)"
+            if tgt[0] == "num" and src and src[0] == "den" \
+                    and how in ("mp_pow_ui", "mp_root"):
+                bad = "the numerator is computed from a denominator: the " \
+                      "roles of the components are swapped"
+            if bad and not den_sign_tests(f, tgt[1]):
+                R.violation(
+                    "R5.1", "role:" + short(f["qn"]), prog.loc(f, n.get("l")),
+                    "%s: in `%s` %s and no test of the sign of get_den(%s) "
+                    "(or canonicalize) normalises the result before it is "
+                    "passed on as canonical" % (short(f["qn"]), show(n)[:70],
+                                                bad, tgt[1]))
+    R.floor("in-place component writes classified", nrole, 5)
     for qn, sites in sorted(writers.items()):
         R.instance("R5.1", qn, sample={"function": qn, "sites": sites[:3]})
         if qn not in RAW_WRITERS:
